@@ -35,6 +35,9 @@ const (
 // Convert MSI to a tar archive in a form that can be digested and signed as a
 // stream
 func MsiToTar(cdf *comdoc.ComDoc, w io.Writer) error {
+	if err := checkMsiTarNames(cdf); err != nil {
+		return err
+	}
 	tw := tar.NewWriter(w)
 	// First write the metadata that is needed for an extended signature
 	var buf bytes.Buffer
@@ -49,6 +52,34 @@ func MsiToTar(cdf *comdoc.ComDoc, w io.Writer) error {
 		return err
 	}
 	return tw.Close()
+}
+
+// DigestMsiTar tells the signature streams and the metadata member apart from
+// content by the member name alone. Refuse a document whose root storage has an
+// entry that the tar form cannot tell apart: a stream whose tar name is that of
+// the metadata member or, without being a signature stream, that of a
+// signature stream; a storage carrying the name of a signature stream (the
+// document digest skips it, its members in the tar form would be content).
+func checkMsiTarNames(cdf *comdoc.ComDoc) error {
+	files, err := cdf.ListDir(nil)
+	if err != nil {
+		return fmt.Errorf("listing root storage: %w", err)
+	}
+	for _, item := range files {
+		name := item.Name()
+		tarName := msiDecodeName(name)
+		switch item.Type {
+		case comdoc.DirStream:
+			if tarName == msiTarExMeta || ((tarName == msiDigitalSignature || tarName == msiDigitalSignatureEx) && tarName != name) {
+				return fmt.Errorf("MSI stream %q cannot be represented in the tar form: its name there, %q, is reserved", name, tarName)
+			}
+		case comdoc.DirStorage:
+			if name == msiDigitalSignature || name == msiDigitalSignatureEx {
+				return fmt.Errorf("MSI storage %q cannot be represented in the tar form: its name is that of a signature stream", name)
+			}
+		}
+	}
+	return nil
 }
 
 // Digset a tarball produced by MsiToTar
